@@ -37,7 +37,7 @@ theorem hash_ext (a b : HashKey) (h1 : a.pieceK = b.pieceK) (h2 : a.pawnK = b.pa
 structure FieldsOK (p : Position) : Prop where
   castling : p.castling < 16
   ep : p.ep < 65
-  halfmove : p.halfmove < 256
+  halfmove : p.halfmove < 65536
   side : p.side ≤ 1
   hist : p.history.length < 800
 
